@@ -362,10 +362,16 @@ def s10(ctx, rep):
     from . import c15
     P = ctx.P
     f = P.method("Rung", "quantile")
-    sites = [x for x in walk_shallow(f.node) if isinstance(x, ast.IfExp) and parity.mode_test(x.test, c15.FLAGS) is not None]
-    if len(sites) != 1:
-        raise AnchorError("Rung.quantile: `q = prom_quant if min else 1 - prom_quant` not found")
-    bad = c15._mode_typed_positions_used_raw(f, sites[0].test)
+    from ..engine import value_choices
+    # the choice between q and 1 - q on the mode, written as a conditional expression or as if/else assigning the same local
+    def _compl(a, b):
+        a, b = U(a).replace(" ", ""), U(b).replace(" ", "")
+        return b == f"1-{a}" or a == f"1-{b}"
+    ch = [c_ for c_ in value_choices(f) if parity.mode_test(c_[1], c15.FLAGS) is not None and _compl(c_[2], c_[3]) and "prom_quant" in U(c_[2])]
+    if len(ch) != 1:
+        raise AnchorError("Rung.quantile: the choice `q = prom_quant under min, 1 - prom_quant under max` not found")
+    sites = [ch[0][0]]
+    bad = c15._mode_typed_positions_used_raw(f, ch[0][1] if ch[0][4] == "expr" else ch[0][2])
     rep.put(not bad, "S3", "parity", "Rung.quantile: positions derived from q address the entry list only inside the mode switch", f,
             bad[0] if bad else sites[0], "", f"`{U(bad[0])[:60] if bad else ''}` indexes the best-first entry list with an ascending-order position "
             "outside the min/max switch: the cutoff is the mirrored entry for mode 'max'")
@@ -469,6 +475,14 @@ def s11(ctx, rep):
         if f_ is not q:
             continue
         shape, ok_, detail = c15.classify(ctx, f_, node)
+        if not ok_ and c15._mirror_when_specialised(f_):
+            # written in a way the shape table does not know: decided on the function with the mode fixed either way - mirror
+            # images, and the complement of the quantile belongs to 'max' (best-first list read from its other end)
+            consts = dict(f_.module.constants)
+            tmin = U(ast.Module(body=parity.specialise(q.node, "min", c15.FLAGS, consts), type_ignores=[])).replace(" ", "")
+            tmax = U(ast.Module(body=parity.specialise(q.node, "max", c15.FLAGS, consts), type_ignores=[])).replace(" ", "")
+            if "1-self.prom_quant" not in tmin and "1-self.prom_quant" in tmax:
+                shape, ok_, detail = "specialised", True, "the function specialised to 'min' and to 'max' are mirror images, 1 - q under 'max'"
         n += 1
         rep.put(bool(ok_), "S3", "parity", f"Rung.quantile: {shape} over the mode", q, node, detail,
                 f"{detail}: the cutoff is taken from the wrong end of the best-first entry list for one of the modes")
